@@ -876,8 +876,8 @@ def inline_new_members(trees, shape_all):
             sh = {"functions": {}}   # a module that did not exist when the shapes were pinned: all its functions are new
         for st in list(tree.body):
               if not (isinstance(st, ast.FunctionDef) and st.name not in sh["functions"] and st.name not in pinned_names
-                      and st.name not in pinned_attrs and len(defs.get(st.name, ())) == 1 and not st.decorator_list):
-                  continue
+                      and st.name not in pinned_attrs and len(defs.get(st.name, ())) == 1):
+                  continue   # (a decorator other than a memoising one on a pure helper makes Helper.usable() false)
               h = Helper(st)
               if not h.usable() or st.name in sess_fns:
                   continue
